@@ -43,6 +43,39 @@ def scenario(args):
     return tr
 
 
+def scenario_slow(args):
+    """slow first hop (the origin's first packets are lost) and a NETWORK_ACK that comes back late but inside the window"""
+    s, d, typ, n_user, n_ack, tt, rt, seed, jitter = args
+    nodes = [dict(addr=a, kind="net", opts=dict(tx_timeout=tt, route_timeout=rt)) for a in CHAIN]
+    name = {nd["addr"]: "n%d" % i for i, nd in enumerate(nodes)}
+    r = route(s, d)
+    rules = [dict(src=name[s], kind="user", fate="P", count=n_user), dict(src=name[r[-2]], kind="ack", fate="P", count=n_ack)]
+    ns = net.NetSim(nodes, seed=seed, jitter=jitter, faults=rules, gap_ms=max(300, 2 * rt + 100))
+    tr = ns.run([net.job_write(name[s], d, typ, b"late", chk=["C13", "C07"], budget_ms=6000)])
+    tr["meta"] = dict(job=[oct(s), oct(d), typ, 4], fault=["slow-first-hop+late-ack", "%d/%d" % (n_user, n_ack)], tx_timeout=tt,
+                      route_timeout=rt, seed=seed, jitter=jitter, hops=len(r) - 1)
+    return tr
+
+
+def scenario_cross(args):
+    """cross traffic: a relay waits for its own NETWORK_ACK (which never comes) while one for a descendant passes through it"""
+    a_src, a_dst, b_src, b_dst, broken, delay_us, seed, jitter = args
+    nodes = [dict(addr=a, kind="net") for a in CHAIN]
+    name = {nd["addr"]: "n%d" % i for i, nd in enumerate(nodes)}
+    rules = [dict(src=name[broken], kind="user", fate="P", to=b_dst)]
+    ns = net.NetSim(nodes, seed=seed, jitter=jitter, gap_ms=400,
+                    fate_fn=lambda pkt: ("P" if (pkt["src"] == name[broken] and len(pkt["data"]) >= 8 and pkt["data"][6] != 193
+                                                 and (pkt["data"][2] | pkt["data"][3] << 8) == b_dst) else "D"))
+    ja = net.job_write(name[a_src], a_dst, 65, b"descendant", chk=[], jid=1, budget_ms=6000)
+    jb = net.job_write(name[b_src], b_dst, 65, b"relay", chk=["C13x"], jid=2, budget_ms=6000)
+    scripts = {name[a_src]: [(1_000_000, lambda ns_, nm: ja["fn"](ns_, nm, ja))],
+               name[b_src]: [(1_000_000 + delay_us * 1000, lambda ns_, nm: jb["fn"](ns_, nm, jb))]}
+    tr = ns.run([], scripts=scripts)
+    tr["meta"] = dict(job=[oct(b_src), oct(b_dst), 65, 5], fault=["cross-traffic", oct(a_src) + "->" + oct(a_dst)], tx_timeout=25,
+                      route_timeout=75, seed=seed, jitter=jitter, hops=len(route(b_src, b_dst)) - 1, delay_us=delay_us)
+    return tr
+
+
 def build(chk):
     quick = chk.tier == "quick"
     rng = random.Random(chk.seed + 13)
@@ -74,8 +107,13 @@ def run(chk):
                 "choice of one node whose data transmissions all fail | one node whose NETWORK_ACK transmissions all fail, "
                 "tx_timeout/route_timeout in {(25,75)} (thorough + (5,25),(75,150),(150,75)); distinct = scenarios")
     jobs = build(chk)
+    quick = chk.tier == "quick"
+    slow = [(0o11, 0o2, 65, nu, na, 25, rt, chk.seed * 131 + i, 3000)
+            for i, (nu, na, rt) in enumerate([(nu, na, rt) for nu in (6, 8, 10, 12) for na in (0, 4, 6, 8, 10) for rt in (40, 75)])]
+    cross = [(0o11, 0o2, 0o1, 0o3, 0, d, chk.seed * 137 + i, 3000) for i, d in enumerate(range(250, 6000, 250 if quick else 100))]
     with ProcessPoolExecutor(16) as ex:
-        traces = list(ex.map(scenario, jobs, chunksize=4))
+        traces = list(ex.map(scenario, jobs, chunksize=4)) + list(ex.map(scenario_slow, slow, chunksize=2)) \
+            + list(ex.map(scenario_cross, cross, chunksize=2))
     chk.phase("simulate")
     for t in traces:
         chk.case(str(t["meta"]))
